@@ -50,4 +50,246 @@ theorem bytes_roundtrip (idx : List Nat) (hi : ∀ i ∈ idx, i < 2 ^ 32) :
   simp only [Nat.mul_mod_right, ne_eq, not_true_eq_false, if_false]
   rw [chunks4_flatMap idx hi _ (by omega)]
 
+/-! ### text form -/
+
+theorem digit_range (c : Char) (h : c.isDigit = true) : 48 ≤ c.toNat ∧ c.toNat ≤ 57 := by
+  unfold Char.isDigit at h
+  simp only [Bool.and_eq_true, decide_eq_true_eq, ge_iff_le] at h
+  exact ⟨UInt32.le_iff_toNat_le.mp h.1, UInt32.le_iff_toNat_le.mp h.2⟩
+
+theorem digit_not_ws (c : Char) (h : c.isDigit = true) : isWs c = false := by
+  have := digit_range c h
+  unfold isWs
+  simp
+  omega
+
+theorem digit_ne (c : Char) (h : c.isDigit = true) (d : Char) (hd : d.isDigit = false) : c ≠ d := by
+  intro e; rw [e, hd] at h; cases h
+
+theorem dropWhile_noWs (l : List Char) (h : ∀ c ∈ l, isWs c = false) : l.dropWhile isWs = l := by
+  cases l with
+  | nil => rfl
+  | cons c t => simp [List.dropWhile, h c (List.mem_cons_self ..)]
+
+theorem strip_noWs (l : List Char) (h : ∀ c ∈ l, isWs c = false) : strip l = l := by
+  unfold strip
+  rw [dropWhile_noWs l h, dropWhile_noWs l.reverse (by simpa using h), List.reverse_reverse]
+
+theorem digits_isDigit (n : Nat) : ∀ c ∈ Nat.toDigits 10 n, c.isDigit = true :=
+  fun _ hc => Nat.isDigit_of_mem_toDigits (by decide) (by decide) hc
+
+theorem validBodyAux_digits (l : List Char) (h : ∀ c ∈ l, c.isDigit = true) :
+    ∀ prev, (l ≠ [] ∨ prev = true) → validBodyAux prev l = true := by
+  induction l with
+  | nil => intro prev hp; rcases hp with hp | hp; exact absurd rfl hp; simp [validBodyAux, hp]
+  | cons c t ih =>
+    intro prev _
+    have hc : isDigit c = true := h c (List.mem_cons_self ..)
+    simp only [validBodyAux, hc, if_true]
+    exact ih (fun d hd => h d (List.mem_cons_of_mem _ hd)) true (Or.inr rfl)
+
+theorem filter_digits (l : List Char) (h : ∀ c ∈ l, c.isDigit = true) : l.filter (· ≠ '_') = l := by
+  rw [List.filter_eq_self]
+  intro c hc
+  have := digit_ne c (h c hc) '_' (by decide)
+  simpa using this
+
+theorem signBody_digits (l : List Char) (h : ∀ c ∈ l, c.isDigit = true) : signBody l = (false, l) := by
+  unfold signBody
+  split
+  · rename_i r
+    exact absurd (h '-' (List.mem_cons_self ..)) (by decide)
+  · rename_i r
+    exact absurd (h '+' (List.mem_cons_self ..)) (by decide)
+  · rfl
+
+theorem pyInt_digits (n : Nat) : pyInt (Nat.toDigits 10 n) = some (n : Int) := by
+  have hD := digits_isDigit n
+  have hne : Nat.toDigits 10 n ≠ [] := Nat.toDigits_ne_nil
+  unfold pyInt
+  rw [strip_noWs _ (fun c hc => digit_not_ws c (hD c hc)), signBody_digits _ hD]
+  simp only [validBodyAux_digits _ hD false (Or.inl hne), if_true, filter_digits _ hD,
+    Nat.ofDigitChars_ten_toDigits, Bool.false_eq_true, if_false]
+
+theorem hardenings_not_digit (d : Char) (hd : d.isDigit = true) : Gen.Bip32.HARDENINGS.contains d = false := by
+  have h1 := digit_ne d hd (Char.ofNat 39) (by decide)
+  have h2 := digit_ne d hd (Char.ofNat 104) (by decide)
+  have h3 := digit_ne d hd (Char.ofNat 72) (by decide)
+  simp [Gen.Bip32.HARDENINGS, h1, h2, h3]
+
+theorem isHard_digits (n : Nat) : isHard Gen.Bip32.HARDENINGS (Nat.toDigits 10 n) = false := by
+  unfold isHard
+  cases hl : (Nat.toDigits 10 n).getLast? with
+  | none => rfl
+  | some d => exact hardenings_not_digit d (digits_isDigit n d (List.mem_of_getLast? hl))
+
+theorem isHard_marked (l : List Char) (c : Char) (hc : c ∈ Gen.Bip32.HARDENINGS) :
+    isHard Gen.Bip32.HARDENINGS (l ++ [c]) = true := by
+  unfold isHard
+  simp [hc]
+
+theorem step_plain (n : Nat) :
+    indexOfStep Gen.Bip32.HARDENINGS false (Nat.toDigits 10 n) =
+      if n < 2 ^ 31 then .ok n else .error .index := by
+  unfold indexOfStep
+  simp only [isHard_digits, Bool.false_eq_true, if_false, Bool.false_and, pyInt_digits, hardened_eq]
+  by_cases h : n < 2 ^ 31
+  · have : (0 : Int) ≤ n ∧ (n : Int) < ((2 ^ 31 : Nat) : Int) := ⟨by positivity, by exact_mod_cast h⟩
+    simp [this, h]
+  · have : ¬ ((0 : Int) ≤ n ∧ (n : Int) < ((2 ^ 31 : Nat) : Int)) := by
+      intro ⟨_, h2⟩; exact h (by exact_mod_cast h2)
+    simp [this, h]
+
+theorem step_marked (n : Nat) (hn : n < 2 ^ 31) (c : Char) (hc : c ∈ Gen.Bip32.HARDENINGS) :
+    indexOfStep Gen.Bip32.HARDENINGS false (Nat.toDigits 10 n ++ [c]) = .ok (n + 2 ^ 31) := by
+  unfold indexOfStep
+  have : (0 : Int) ≤ n ∧ (n : Int) < ((2 ^ 31 : Nat) : Int) := ⟨by positivity, by exact_mod_cast hn⟩
+  have hn' : n < 2147483648 := by simpa using hn
+  simp [isHard_marked _ c hc, pyInt_digits, hardened_eq, this, hn']
+
+theorem step_markers (n : Nat) (hn : n < 2 ^ 31) (c : Char) (hc : c ∈ Gen.Bip32.HARDENINGS) :
+    indexOfStep Gen.Bip32.HARDENINGS false (Nat.toDigits 10 n ++ [c]) = .ok (n + 2 ^ 31) ∧
+    indexOfStep Gen.Bip32.HARDENINGS false (Nat.toDigits 10 n) = .ok n :=
+  ⟨step_marked n hn c hc, by rw [step_plain, if_pos hn]⟩
+
+theorem step_boundary (n : Nat) (hn : 2 ^ 31 ≤ n) :
+    indexOfStep Gen.Bip32.HARDENINGS false (Nat.toDigits 10 n) = .error .index ∧
+    indexOfStep Gen.Bip32.HARDENINGS false (Nat.toDigits 10 (2 ^ 31 - 1)) = .ok (2 ^ 31 - 1) :=
+  ⟨by rw [step_plain, if_neg (by omega)], by rw [step_plain, if_pos (by norm_num)]⟩
+
+/-! #### split / join -/
+
+theorem splitOn_noSep (sep : Char) (a : List Char) (h : sep ∉ a) : splitOn sep a = [a] := by
+  induction a with
+  | nil => rfl
+  | cons c t ih =>
+    have hc : c ≠ sep := fun e => h (e ▸ List.mem_cons_self ..)
+    simp [splitOn, hc, ih (fun hm => h (List.mem_cons_of_mem _ hm))]
+
+theorem splitOn_append (sep : Char) (a rest : List Char) (h : sep ∉ a) :
+    splitOn sep (a ++ sep :: rest) = a :: splitOn sep rest := by
+  induction a with
+  | nil => simp [splitOn]
+  | cons c t ih =>
+    have hc : c ≠ sep := fun e => h (e ▸ List.mem_cons_self ..)
+    simp [splitOn, hc, ih (fun hm => h (List.mem_cons_of_mem _ hm))]
+
+theorem splitOn_intercalate (sep : Char) (parts : List (List Char)) (hne : parts ≠ [])
+    (h : ∀ a ∈ parts, sep ∉ a) : splitOn sep (intercalate sep parts) = parts := by
+  induction parts with
+  | nil => exact absurd rfl hne
+  | cons a t ih =>
+    cases t with
+    | nil => simp [intercalate, splitOn_noSep sep a (h a (List.mem_cons_self ..))]
+    | cons b rest =>
+      simp only [intercalate]
+      rw [splitOn_append sep a _ (h a (List.mem_cons_self ..)),
+        ih (by simp) (fun c hc => h c (List.mem_cons_of_mem _ hc))]
+
+theorem mapM_map_ok {α β γ ε : Type} (l : List α) (part : α → γ) (f : γ → Except ε β) (g : α → β)
+    (h : ∀ a ∈ l, f (part a) = .ok (g a)) : (l.map part).mapM f = .ok (l.map g) := by
+  induction l with
+  | nil => rfl
+  | cons a t ih =>
+    rw [List.map_cons, List.mapM_cons, h a (List.mem_cons_self ..), ih (fun b hb => h b (List.mem_cons_of_mem _ hb))]
+    rfl
+
+/-- the text written for one index -/
+def part (hsym : Char) (i : Nat) : List Char :=
+  if i < HARDENED then Nat.toDigits 10 i else Nat.toDigits 10 (i - HARDENED) ++ [hsym]
+
+theorem part_chars (hsym : Char) (hh : hsym = 'h' ∨ hsym = '\'') (i : Nat) :
+    ∀ c ∈ part hsym i, isWs c = false ∧ c ≠ '/' := by
+  intro c hc
+  have hs : isWs hsym = false ∧ hsym ≠ '/' := by rcases hh with rfl | rfl <;> decide
+  have hdig : ∀ n, ∀ d ∈ Nat.toDigits 10 n, isWs d = false ∧ d ≠ '/' := fun n d hd =>
+    ⟨digit_not_ws d (digits_isDigit n d hd), digit_ne d (digits_isDigit n d hd) '/' (by decide)⟩
+  unfold part at hc
+  split at hc
+  · exact hdig _ c hc
+  · rcases List.mem_append.mp hc with h | h
+    · exact hdig _ c h
+    · rw [List.mem_singleton.mp h]; exact hs
+
+theorem part_ne_nil (hsym : Char) (i : Nat) : part hsym i ≠ [] := by
+  unfold part; split
+  · exact Nat.toDigits_ne_nil
+  · simp
+
+theorem part_parses (hsym : Char) (hh : hsym = 'h' ∨ hsym = '\'') (i : Nat) (hi : i < 2 ^ 32) :
+    indexOfStep Gen.Bip32.HARDENINGS false (part hsym i) = .ok i := by
+  unfold part
+  rw [hardened_eq]
+  split
+  · rename_i h; rw [step_plain, if_pos h]
+  · rename_i h
+    have hm : hsym ∈ Gen.Bip32.HARDENINGS := by rcases hh with rfl | rfl <;> decide
+    rw [step_marked _ (by omega) hsym hm]
+    congr 1; omega
+
+theorem strOfIndex_part (hsym : Char) (hh : hsym = 'h' ∨ hsym = '\'') (i : Nat) :
+    strOfIndex [hsym] i = .ok (part hsym i) := by
+  have : Gen.Bip32.BIP380_HARDENINGS.contains hsym = true := by rcases hh with rfl | rfl <;> decide
+  unfold strOfIndex part
+  simp only [this, Bool.not_true, Bool.false_eq_true, if_false]
+  split <;> rfl
+
+theorem str_roundtrip (idx : List Nat) (hsym : Char) (hh : hsym = 'h' ∨ hsym = '\'')
+    (hi : ∀ i ∈ idx, i < 2 ^ 32) (hl : idx.length ≤ 255) :
+    ∃ s, strFromIndexes idx [hsym] = .ok s ∧ indexesFromStr s = .ok idx := by
+  have hany : idx.any (· > Gen.Bip32.PATH_MAX_INDEX) = false := by
+    rw [List.any_eq_false]
+    intro j hj
+    have := hi j hj
+    rw [max_index_eq]; simp; omega
+  have hparts : idx.mapM (strOfIndex [hsym]) = .ok (idx.map (part hsym)) := by
+    have := mapM_map_ok idx id (strOfIndex [hsym]) (part hsym) (fun a _ => strOfIndex_part hsym hh a)
+    simpa using this
+  unfold strFromIndexes
+  simp only [hany, Bool.false_eq_true, if_false, hparts, Except.map]
+  refine ⟨_, rfl, ?_⟩
+  cases idx with
+  | nil =>
+    show indexesFromStr ['m'] = .ok []
+    decide
+  | cons i rest =>
+    have hne : (List.map (part hsym) (i :: rest)) ≠ [] := by simp
+    have hemp : (List.map (part hsym) (i :: rest)).isEmpty = false := by simp
+    simp only [hemp, Bool.false_eq_true, if_false]
+    unfold indexesFromStr
+    have hsplit : splitOn '/' ('m' :: '/' :: intercalate '/' (List.map (part hsym) (i :: rest))) =
+        ['m'] :: List.map (part hsym) (i :: rest) := by
+      have := splitOn_append '/' ['m'] (intercalate '/' (List.map (part hsym) (i :: rest))) (by decide)
+      rw [List.singleton_append] at this
+      rw [this, splitOn_intercalate '/' _ hne]
+      intro a ha
+      obtain ⟨j, _, rfl⟩ := List.mem_map.mp ha
+      exact fun hm => (part_chars hsym hh j '/' hm).2 rfl
+    have hstrip : (List.map (part hsym) (i :: rest)).map strip = List.map (part hsym) (i :: rest) := by
+      rw [List.map_map]
+      apply List.map_congr_left
+      intro j _
+      exact strip_noWs _ (fun c hc => (part_chars hsym hh j c hc).1)
+    have hm : strip ['m'] = ['m'] := by decide
+    have hskip : skipM (['m'] :: List.map (part hsym) (i :: rest)) = List.map (part hsym) (i :: rest) := by
+      unfold skipM
+      have hlow : (['m'].map lower == ['m']) = true := by decide
+      simp only [hlow, if_true]
+    simp only []
+    rw [hsplit, List.map_cons, hm, hstrip, hskip]
+    have hfilter : (List.map (part hsym) (i :: rest)).filter (fun st => !st.isEmpty) =
+        List.map (part hsym) (i :: rest) := by
+      rw [List.filter_eq_self]
+      intro a ha
+      obtain ⟨j, _, rfl⟩ := List.mem_map.mp ha
+      have := part_ne_nil hsym j
+      cases hp : part hsym j with
+      | nil => exact absurd hp this
+      | cons _ _ => rfl
+    rw [hfilter, mapM_map_ok (i :: rest) (part hsym) _ id (fun a ha => part_parses hsym hh a (hi a ha))]
+    have hlen : ¬ (i :: rest).length > Gen.Bip32.PATH_STR_MAX_LEN := by
+      have : Gen.Bip32.PATH_STR_MAX_LEN = 255 := by decide
+      rw [this]; simpa using hl
+    simp only [Except.bind, hlen, if_false, List.map_id]
+
 end Btc.DerPath
